@@ -46,14 +46,15 @@ Definition distb (g : graph) (i d : node) : option nat :=
 Definition adv_ok (adv : list adv_entry) : bool :=
   forallb (fun a => a_cost a <? INF) adv.
 
-(* the deterministic next hop: the least (by name hash) neighbour that is one hop closer *)
+(* the deterministic next hop: among the neighbours that are one hop closer, the one the tie-break prefers
+   (tie_key: the smaller or the larger name hash, as measured on the implementation) *)
 Definition on_path (g : graph) (d : node) (m : nat) (h : node) : bool :=
   match distb g h d with Some m' => Nat.eqb (S m') m | None => false end.
 
 Definition hop_ok (g : graph) (i d : node) (m : nat) (h : node) : bool :=
   if i =? d then h =? i
   else edge g i h && on_path g d m h &&
-       forallb (fun h' => negb (on_path g d m h') || (h <=? h')) (nb g i).
+       forallb (fun h' => negb (on_path g d m h') || (tie_key h <=? tie_key h')%Z) (nb g i).
 
 (* router i's table (destination -> (best cost, next hop), as returned by Rib.Entries) is exactly the
    shortest-path table of g: every destination at distance m < INF is present with cost m and the
@@ -69,6 +70,27 @@ Definition table_ok (g : graph) (i : node) (tbl : list (node * (N * node))) : bo
                        | Some _ => match aget d tbl with Some _ => true | None => false end
                        | None => true
                        end) (map fst g).
+
+(* what the property itself demands of a table (the oracle evaluated on the implementation): the same, except that any
+   neighbour one hop closer is an acceptable next hop — that ties are broken "the same way every time" is checked
+   separately (agreement with the model, identical results on re-delivery) *)
+Definition hop_okw (g : graph) (i d : node) (m : nat) (h : node) : bool :=
+  if i =? d then h =? i else edge g i h && on_path g d m h.
+
+Definition table_okw (g : graph) (i : node) (tbl : list (node * (N * node))) : bool :=
+  forallb (fun dc : node * (N * node) =>
+             let '(d, (c, h)) := dc in
+             match distb g i d with
+             | Some m => (c =? N.of_nat m) && hop_okw g i d m h
+             | None => false
+             end) tbl
+  && forallb (fun d => match distb g i d with
+                       | Some _ => match aget d tbl with Some _ => true | None => false end
+                       | None => true
+                       end) (map fst g).
+
+Definition convergedw (S : net) : bool :=
+  forallb (fun r => table_okw (topo_of S) (self r) (rib_entries (rrib r)) && adv_ok (advert (rrib r))) S.
 
 Definition converged (S : net) : bool :=
   forallb (fun r => table_ok (topo_of S) (self r) (rib_entries (rrib r)) && adv_ok (advert (rrib r))) S.
